@@ -211,6 +211,13 @@ class T:
                         return T.proj(T.deref(c.args[2][0]), ("idx", T.const("usize", r.args[4][0].args[1] + kk)))
                 if c.args[0] == "[T]::first_chunk" and len(c.args[2]) == 1:
                     return T.proj(T.deref(c.args[2][0]), elem)
+            if v.op == "payload" and v.args[1] == "Ok" and v.args[0].op == "call" and len(v.args[0].args[2]) == 1 \
+                    and v.args[0].args[0] in ("convert::TryInto::try_into", "convert::TryFrom::try_from"):
+                # <&[T; N]>::try_from(slice)?[k] = slice[k] (the conversion succeeded, so the slice has exactly N elements; k < N is
+                # checked statically for arrays)
+                src = v.args[0].args[2][0]
+                if src.op in ("payload", "refval", "param") or (src.op == "call" and src.args[0] == "ops::Index::index"):
+                    return T.proj(T.deref(src), elem)
         return Term("proj", t, elem)
 
     @staticmethod
